@@ -394,7 +394,7 @@ type ColDef struct {
 }
 
 type AccDef struct {
-	Groups []int    `json:"groups"` // field numbers; 0 = the whole element
+	Groups []int    `json:"groups"` // field numbers; 0 = the whole element; negative = a group expression that asks for a key: -1 the first accumulator's name, -2 a name nobody defines, -3 {.} - a group is computed before its row exists, so all of them are empty
 	Cols   []ColDef `json:"cols"`
 }
 
@@ -419,6 +419,10 @@ func (r *refAccum) feed(raw string) (group string) {
 	parts := strings.Split(raw, nul)
 	gp := make([]string, len(r.def.Groups))
 	for i, g := range r.def.Groups {
+		if g < 0 {
+			gp[i] = "" // a key asked for while the group is being determined: there is no row to look into yet
+			continue
+		}
 		gp[i] = field(parts, raw, g)
 	}
 	group = strings.Join(gp, nul)
